@@ -193,6 +193,175 @@ class DecisionOb(SmtOb):
         return bad or bool(args.get("what")), {"real_code": real, "witness": differ, "what": args.get("what")}
 
 
+class StridedOb(SmtOb):
+    """decisions about NON-affine lengths the library itself produces: len(x[::k]) = (len(x) + k - 1) // k.
+    For pairs (affine e, stride k): the inferred slice length must be right for every size at which the axis is valid,
+    and equality / broadcasting decisions between two such lengths must agree with z3 over all sizes."""
+
+    def __init__(self, oid, nparams, quads, info):
+        super().__init__()
+        self.oid, self.nparams, self.quads, self.info = oid, nparams, quads, info
+        self.params, self.samples = [], []
+        self.stats = {}
+
+    @staticmethod
+    def _z3_of_dim(dim, ps):
+        """pytato shape component -> z3 term over the size parameters p0.. (affine + floor division)"""
+        import pymbolic.primitives as prim
+        import z3
+        from pytato.utils import dim_to_index_lambda_components
+        if isinstance(dim, (int, np.integer)):
+            return z3.IntVal(int(dim))
+        expr, bnds = dim_to_index_lambda_components(dim)
+        names = {k: ps[int(v.name[1:])] for k, v in bnds.items()}
+
+        def enc(e):
+            if isinstance(e, (int, np.integer)):
+                return z3.IntVal(int(e))
+            if isinstance(e, prim.Variable):
+                return names[e.name]
+            if isinstance(e, prim.Sum):
+                r = enc(e.children[0])
+                for c in e.children[1:]:
+                    r = r + enc(c)
+                return r
+            if isinstance(e, prim.Product):
+                r = enc(e.children[0])
+                for c in e.children[1:]:
+                    r = r * enc(c)
+                return r
+            if isinstance(e, prim.FloorDiv):
+                return enc(e.numerator) / enc(e.denominator)        # (z3 integer division floors for positive divisors)
+            raise RuntimeError(f"shape expression not understood: {type(e).__name__}")
+        return enc(expr)
+
+    def _decide_real(self, c1, k1, c2, k2):
+        import pytato as pt
+        from pytato.utils import are_shape_components_equal
+        ps = [pt.make_size_param(f"p{k}") for k in range(self.nparams)]
+        out = {}
+        arrs = []
+        for tag, c, k in (("1", c1, k1), ("2", c2, k2)):
+            e = _affine(c, ps)
+            try:
+                x = pt.make_placeholder("x" + tag, (e,), F64)
+                y = x[::k]
+                out["len" + tag] = y.shape[0]
+                arrs.append(y)
+            except (NotImplementedError, ValueError, IndexError) as ex:
+                out["refused" + tag] = type(ex).__name__       # e.g. "could not ascertain the sign": a documented refusal
+        if len(arrs) == 2:
+            out["eq"] = bool(are_shape_components_equal(arrs[0].shape[0], arrs[1].shape[0]))
+            try:
+                r = arrs[0] + arrs[1]
+                out["bcast"] = True
+                out["bcast_len"] = r.shape[0]
+            except Exception as ex:  # noqa: BLE001
+                out["bcast"] = False
+        return out
+
+    def solve(self):
+        import z3
+        t0 = time.time()
+        ps = [z3.Int(f"p{k}") for k in range(self.nparams)]
+        s = z3.Solver()
+        s.set("timeout", 10000)
+        for p in ps:
+            s.add(p >= 0)
+        nq = 0
+
+        def always(prop, *assume):
+            nonlocal nq
+            s.push()
+            for a in assume:
+                s.add(a)
+            s.add(z3.Not(prop))
+            r = s.check()
+            nq += 1
+            s.pop()
+            if str(r) not in ("sat", "unsat"):
+                raise RuntimeError("z3 unknown")
+            return str(r) == "unsat"
+        for (c1, k1, c2, k2) in self.quads:
+            z1 = c1[0] + sum(c * p for c, p in zip(c1[1:], ps))
+            z2 = c2[0] + sum(c * p for c, p in zip(c2[1:], ps))
+            t1, t2 = (z1 + k1 - 1) / k1, (z2 + k2 - 1) / k2          # true lengths where the axes are valid
+            real = self._decide_real(c1, k1, c2, k2)
+            bad = None
+            try:
+                for tag, z, t in (("1", z1, t1), ("2", z2, t2)):
+                    if "len" + tag in real:
+                        L = self._z3_of_dim(real["len" + tag], ps)
+                        if not always(L == t, z >= 0):
+                            bad = f"inferred length of x[::k] on an axis of length e{tag} is wrong for some size at which the axis is valid"
+                if not bad and "eq" in real:
+                    valid = z3.And(z1 >= 0, z2 >= 0)
+                    eq = always(t1 == t2, valid)
+                    one1, one2 = always(t1 == 1, valid), always(t2 == 1, valid)
+                    # (only soundness: the property promises "exactly when" for AFFINE components; for these
+                    #  floor-division lengths the library may fail to see an equality, e.g. (2n+1)//2 vs n)
+                    if real["eq"] and not eq:
+                        bad = "are_shape_components_equal answered True for two strided-slice lengths that differ for some size"
+                    elif real["bcast"] and not (eq or one1 or one2):
+                        bad = "broadcast of two strided slices accepted although their lengths differ for some size and neither is 1"
+                    elif real["bcast"]:
+                        Lb = self._z3_of_dim(real["bcast_len"], ps)
+                        if not always(Lb == z3.If(t1 == 1, t2, t1), valid):
+                            bad = "broadcast result length of two strided slices"
+            except RuntimeError as e:
+                return {"status": "inconclusive", "reason": str(e), "solver_queries": nq, "solver_s": 0.0}
+            if bad:
+                real_s = {k: (str(v) if not isinstance(v, (bool, str)) else v) for k, v in real.items()}
+                return {"status": "refuted", "args": {"c1": list(c1), "k1": k1, "c2": list(c2), "k2": k2, "what": bad, "real": real_s},
+                        "solver_queries": nq, "solver_s": 0.0, "wall_s": round(time.time() - t0, 3), "message": bad}
+        return {"status": "confirmed", "solver_queries": nq, "solver_s": 0.0, "wall_s": round(time.time() - t0, 3),
+                "message": f"{len(self.quads)} (length, stride) pairs"}
+
+    def replay(self, args):
+        """concrete witness on a grid of sizes: evaluate the real inferred lengths / decisions against the true lengths"""
+        from pv.sem.alg import TermAlg
+        c1, k1, c2, k2 = tuple(args["c1"]), args["k1"], tuple(args["c2"]), args["k2"]
+        real = self._decide_real(c1, k1, c2, k2)
+        import z3
+        ps = [z3.Int(f"p{k}") for k in range(self.nparams)]
+        for vals in itertools.product(range(0, 7), repeat=self.nparams):
+            v1 = c1[0] + sum(c * v for c, v in zip(c1[1:], vals))
+            v2 = c2[0] + sum(c * v for c, v in zip(c2[1:], vals))
+            if v1 < 0 or v2 < 0:
+                continue
+            t1, t2 = -(-v1 // k1), -(-v2 // k2)
+            sub = [(p, z3.IntVal(v)) for p, v in zip(ps, vals)]
+            for tag, t in (("1", t1), ("2", t2)):
+                if "len" + tag in real:
+                    got = z3.simplify(z3.substitute(self._z3_of_dim(real["len" + tag], ps), *sub)).as_long()
+                    if got != t:
+                        return True, {"sizes": list(vals), "axis": tag, "inferred": got, "true": t, "what": args.get("what")}
+            if "eq" in real:
+                if real["eq"] and t1 != t2:
+                    return True, {"sizes": list(vals), "lengths": [t1, t2], "decided_equal": True, "what": args.get("what")}
+                if real["bcast"] and t1 != t2 and 1 not in (t1, t2):
+                    return True, {"sizes": list(vals), "lengths": [t1, t2], "broadcast_accepted": True, "what": args.get("what")}
+        return False, {"why": "no size in 0..6 falsifies the decision", "what": args.get("what")}
+
+    def describe(self):
+        return {"oid": self.oid, **self.info}
+
+
+def strided_job(nparams: int, chunk: int, nchunks: int, seed: int) -> JobOut:
+    consts = range(-2, 3)
+    coefs = list(itertools.product(range(0, 3), repeat=nparams))
+    exprs = [(c0, *cs) for c0 in consts for cs in coefs if any(cs)]
+    rnd = random.Random(seed * 77 + nparams)
+    quads = [(a, ka, b, kb) for a in exprs for b in exprs for ka in (1, 2, 3) for kb in (1, 2, 3)]
+    if len(quads) > 2400:
+        quads = rnd.sample(quads, 2400)
+    mine = quads[chunk::nchunks]
+    ob = StridedOb(f"strided/{nparams}params/chunk{chunk}", nparams, mine,
+                   {"family": "strided-slice lengths", "pairs": len(mine), "strides": [1, 2, 3],
+                    "expressions": "c0 + sum c_k p_k, c0 in -2..2, c_k in 0..2"})
+    return JobOut(obs=[ob])
+
+
 def decision_job(nparams: int, chunk: int, nchunks: int, sample: int, seed: int, xcheck: int = 0) -> JobOut:
     coeffs = list(itertools.product(range(-3, 4), repeat=nparams + 1))
     allpairs = [(a, b) for a in coeffs for b in coeffs]
@@ -354,6 +523,9 @@ def jobs(tier: str, seed: int):
     for npar, sample in ((2, 6000 if th else 1200), (3, 6000 if th else 800)):
         J += [Job(MOD, "decision_job", {"nparams": npar, "chunk": c, "nchunks": 8, "sample": sample, "seed": seed, "xcheck": xc},
                   jid=f"decisions/{npar}/{c}", hard_timeout=900) for c in range(8)]
+    for npar in (1, 2):
+        J += [Job(MOD, "strided_job", {"nparams": npar, "chunk": c, "nchunks": 8, "seed": seed}, jid=f"strided/{npar}/{c}",
+                  hard_timeout=900) for c in range(8)]
     for P in C.SYM_CORPUS:
         J.append(Job(MOD, "sym_program_job", {"prog": P.name}, jid=f"{P.name}", hard_timeout=1200))
     meta = {
@@ -367,6 +539,6 @@ def jobs(tier: str, seed: int):
                    "size-parameter programs": [p.name for p in C.SYM_CORPUS],
                    "size parameter values": "all integers >= the program's minimum (0 or 1), unbounded"},
         "outside": ["operations pytato documents as unsupported for symbolic axes (reshape, advanced indexing, reductions "
-                    "over symbolic axes, concatenate along a symbolic axis) -- declined", "non-affine shape expressions"],
+                    "over symbolic axes, concatenate along a symbolic axis) -- declined", "non-affine shape expressions other than the strided-slice lengths (e + k - 1) // k"],
     }
     return J, meta
